@@ -115,8 +115,15 @@ def run(ctx):
     # ---- R3 prefix route -----------------------------------------------------------------------
     fm = I.global_name("formulas", "formula")
     s_fm = fsite(ctx, "formulas.formula")
+    from .C16 import UnexpectedParse
     for pre, text, table in (("aa", "ABCA", res), ("dna", "AA", {"A": res["C"]}), ("rna", "AA", {"A": res["B"]})):
-        got = I.call(fm, [f"{pre}:{text}"], {})
+        try:
+            got = I.call(fm, [f"{pre}:{text}"], {})
+        except UnexpectedParse as exc:
+            ctx.fail("R3", f"formula('{pre}:{text}') = Sequence('{text}', type='{pre}').labile_formula [atoms]",
+                     "the prefix route sends text through the chemical-formula parser (a printed formula carries six significant "
+                     f"digits, so long sequences and averaged codes no longer give the class's formula): {str(exc)[:160]}", s_fm)
+            continue
         want = I.getattr(seq(text, pre), "labile_formula")
         dict_eq(ctx, "R3", f"formula('{pre}:{text}') = Sequence('{text}', type='{pre}').labile_formula [atoms]",
                 I.getattr(got, "atoms"), I.getattr(want, "atoms"), s_fm)
